@@ -10,6 +10,7 @@ from gvsim.sim import Raised, Sim, sut
 
 PROP = 'C03'
 TIERS = {'quick': {'runs': 2000, 'wall': 100}, 'thorough': {'runs': 50000, 'wall': 1500}}
+REACH = ['caller_mutation_input', 'caller_mutation_output', 'clear_caches', 'cache_pressure', 'reasked', 'copy_probe', 'knob:near_duplicate_states', 'knob:view_covers_grid']  # probes / faults that must fire in every batch (reach gaps are reported in the evidence)
 RULE = ('one run = 1-3 clients over compositions containing every built-in transition / reward / termination / '
         'observation component (nested boxes, held items, doors in all statuses) under a seeded op list of functional '
         'steps, observations, direct component and transition_with_copy calls; faults: caller mutation of inputs and '
